@@ -244,6 +244,23 @@ pub fn classify_io(e: &std::io::Error) -> Classified {
     Classified::Err(format!("other:{:?}", e.kind()))
 }
 
+/// Every error the library hands out can be shown: `Display`, `Debug` and the `source()` chain are total
+/// (seed C05-seed10: a panic in `impl Display for Error`). `false` = rendering the error panicked.
+pub fn renders(e: &attohttpc::Error) -> bool {
+    catch_unwind(AssertUnwindSafe(|| {
+        let _ = e.to_string();
+        let _ = format!("{:?} {:#?}", e, e);
+        let mut src = std::error::Error::source(e);
+        while let Some(s) = src {
+            let _ = s.to_string();
+            src = s.source();
+        }
+        let io: std::io::Error = std::io::Error::new(std::io::ErrorKind::Other, e.to_string());
+        let _ = io.to_string();
+    }))
+    .is_ok()
+}
+
 pub fn classify_atto(e: &attohttpc::Error) -> Classified {
     use attohttpc::ErrorKind as K;
     match e.kind() {
@@ -328,6 +345,7 @@ pub fn run_resp(case: &RespCase) -> RespOut {
     let pauses_in_send = pauses(&log);
     match sent {
         Err(_) => out.head = HeadOut::Panic,
+        Ok(Err(e)) if !renders(&e) => out.head = HeadOut::Panic,
         Ok(Err(e)) => {
             out.head = match classify_atto(&e) {
                 Classified::Blocked => HeadOut::Blocked,
@@ -495,6 +513,7 @@ pub fn run_resp(case: &RespCase) -> RespOut {
                     out.events.push(match r {
                         Err(_) => Ev::Panic,
                         Ok(Ok(bs)) => Ev::Ok(bs),
+                        Ok(Err(e)) if !renders(&e) => Ev::Panic,
                         Ok(Err(e)) => match classify_atto(&e) {
                             Classified::Blocked => Ev::Blocked,
                             Classified::Err(k) => Ev::Err(k),
